@@ -433,13 +433,16 @@ func bodyReplayRule(h H, rule string) {
 			forwards = append(forwards, in)
 			return
 		}
-		if f := calleeFunc(c); f != nil && f.Parent() == sv {
+		// a closure or helper of the package that performs the forward (the per-attempt function)
+		if f := calleeFunc(c); f != nil && fnPkg(f) != nil && fnPkg(f) == fnPkg(sv) && len(f.Blocks) > 0 {
 			hit := false
-			allInstrs(f, func(x ssa.Instruction) {
-				if cc := callOf(x); cc != nil && strings.HasSuffix(calleeName(cc), "proxy.ReverseProxy).ServeHTTP") {
-					hit = true
-				}
-			})
+			for _, g := range withHelpers(f, 2) {
+				allInstrs(g, func(x ssa.Instruction) {
+					if cc := callOf(x); cc != nil && strings.HasSuffix(calleeName(cc), "proxy.ReverseProxy).ServeHTTP") {
+						hit = true
+					}
+				})
+			}
 			if hit {
 				forwards = append(forwards, in)
 			}
@@ -456,11 +459,51 @@ func bodyReplayRule(h H, rule string) {
 		ta, ok := ex.Tuple.(*ssa.TypeAssert)
 		return ok && strings.HasSuffix(ta.AssertedType.String(), "proxy.bufferedBody")
 	})
+	isRewind := func(x ssa.Instruction) bool {
+		c := callOf(x)
+		return c != nil && strings.HasSuffix(calleeName(c), "proxy.bufferedBody).rewind")
+	}
+	notBufferedIn := func(g *ssa.Function) map[edge]bool {
+		return guardEdges(g, false, func(v ssa.Value) bool {
+			ex, ok := v.(*ssa.Extract)
+			if !ok || ex.Index != 1 {
+				return false
+			}
+			ta, ok := ex.Tuple.(*ssa.TypeAssert)
+			return ok && strings.HasSuffix(ta.AssertedType.String(), "proxy.bufferedBody")
+		})
+	}
+	// a helper that rewinds on all its paths unless the body is not a *bufferedBody counts as the rewind
+	rewinds := func(x ssa.Instruction) bool {
+		if isRewind(x) {
+			return true
+		}
+		c := callOf(x)
+		if c == nil {
+			return false
+		}
+		f := calleeFunc(c)
+		if f == nil || len(f.Blocks) == 0 || fnPkg(f) == nil || fnPkg(f) != fnPkg(sv) {
+			return false
+		}
+		has := false
+		allInstrs(f, func(y ssa.Instruction) {
+			if isRewind(y) {
+				has = true
+			}
+		})
+		if !has {
+			return false
+		}
+		for _, e := range exitsOf(f) {
+			if rt, ok := e.(*ssa.Return); ok && canReach(f, nil, rt, cut{edges: notBufferedIn(f), instr: isRewind}) {
+				return false
+			}
+		}
+		return true
+	}
 	for _, f := range forwards {
-		ok := !canReach(sv, firstInstr(hd), f, cut{edges: notBuffered, instr: func(x ssa.Instruction) bool {
-			c := callOf(x)
-			return c != nil && strings.HasSuffix(calleeName(c), "proxy.bufferedBody).rewind")
-		}})
+		ok := !canReach(sv, firstInstr(hd), f, cut{edges: notBuffered, instr: rewinds})
 		r.Check(ok, rule, "proxy.Proxy.ServeHTTP/retry-loop/rewind-before-forward", f.Pos(), "each attempt starts with the buffered body rewound to its beginning")
 	}
 	for _, c := range findCalls(sv, func(in ssa.Instruction) bool { return isCallTo(in, modPath+"/"+pxPkg+".newBufferedBody") }) {
